@@ -18,6 +18,8 @@ type Config struct {
 	MaxViolations int     // stop after this many violations (default 6)
 	MaxSamples    int     // rendered sample executions to keep (default 4)
 	NoDetCheck    bool    // skip the run-twice determinism check (bodies that cannot be repeated)
+	// RecycleAfter: a worker process is replaced after this many executions (0 = never).
+	RecycleAfter int64
 	// IsKnown classifies a violation signature as a listed known finding: such executions are
 	// recorded in Result.Known (one per signature), do not stop the search and are not expanded.
 	IsKnown func(sig string) bool
